@@ -98,7 +98,7 @@ def run(ctx, rec):
     rng = ctx.rng("c01")
     depth = 2 if ctx.quick else 3
     tier = 1 if ctx.quick else 2
-    n_random = 1200 if ctx.quick else 2500
+    n_random = 1200 if ctx.quick else 8000
     spice = True
     if ctx.nshards == 1 or ctx.shard == 0:
         for k, (label, d) in enumerate(spec.structural_designs()):
